@@ -18,6 +18,6 @@ git checkout -q -- . && git clean -fdq
 for p in "$@"; do git apply /tmp/seed/$p-out/demo.diff; done
 git status --short | awk '{print $2}' | xargs touch
 for p in "$@"; do for f in $(grep '^+++ b/' /tmp/seed/$p-out/patch.diff | sed 's#+++ b/##'); do touch $f; done; done
-echo "== step 2: demos only (filter: $filter)"
+cargo clean -q -p $crate 2>/dev/null; echo "== step 2: demos only (filter: $filter)"
 cargo test --offline -p $crate --lib -- $filter 2>&1 | grep -E "^test |^test result" | head -40
 git checkout -q -- . && git clean -fdq
